@@ -134,7 +134,7 @@ impl<'a> GExec<'a> {
         if let Some(why) = reason {
             let tags: &[&'static str] = match why {
                 "bypass-without-operator-auth" => &["C09", "C06", "C03"],
-                "rotation-delay-not-elapsed" => &["C09"],
+                "rotation-delay-not-elapsed" => &["C09", "C06"],
                 "not-latest-signers" | "set-outdated" => &["C08", "C03"],
                 "malformed-candidate" | "duplicate-set" => &["C03"],
                 _ => &["C03", "C01"],
@@ -691,7 +691,7 @@ impl<'a> GExec<'a> {
             let m = self.gws[g].m.clone();
             let e = self.sim.query(&gaddr, "epoch", SVec::new(&env));
             let ev = e.val().and_then(|v| u64::try_from_val_(&env, v));
-            if !ctx.check(ev == Some(m.epoch), &["C03"], "invariant/epoch-differs", || {
+            if !ctx.check(ev == Some(m.epoch), &["C03", "C08"], "invariant/epoch-differs", || {
                 format!("gateway {} epoch() = {:?}, history says {}", g, ev, m.epoch)
             }) {
                 return;
